@@ -226,6 +226,15 @@ def _get_subcircuits(
     for cut in good_cuts:
         for subcut in more_itertools.powerset(cut):
             cut_nodes[cut].update(cut_nodes[subcut])
+        # The enumerator is not obliged to list a sub-cut for every node of a cone
+        # (e.g. because of `cut_limit`), so add the rest of the cone explicitly:
+        # every operand of a collected node, down to the leaves of the cut.
+        stack: list[Label] = [node for node in cut_nodes[cut] if node not in cut]
+        while stack:
+            for operand in circuit.get_gate(stack.pop()).operands:
+                if operand not in cut and operand not in cut_nodes[cut]:
+                    cut_nodes[cut].add(operand)
+                    stack.append(operand)
 
     node_pos: dict[Label, int] = {
         node.label: i for i, node in enumerate(circuit.top_sort(inverse=True))
